@@ -68,6 +68,16 @@ impl TargetProc {
             return Err(format!("target not ready: {ready:?}"));
         }
         let pid = report["pid"].as_i64().unwrap_or(0) as i32;
+        // "ready" is written before the main thread settles: wait until it is blocked in the system call it stays in
+        // (read of its standard input, or pause / exit for the special shapes), so that nothing in the target moves any more
+        for _ in 0..400 {
+            let sc = std::fs::read_to_string(format!("/proc/{pid}/task/{pid}/syscall")).unwrap_or_default();
+            let first = sc.split_whitespace().next().unwrap_or("");
+            if first == "0" || first == "34" || sc.is_empty() || first == "-1" && cfg.get("main_rsp0").is_some() {
+                break;
+            }
+            std::thread::sleep(std::time::Duration::from_micros(500));
+        }
         let has_shared = cfg.get("shared_path").is_some();
         Ok(TargetProc { child, stdin, stdout, report, pid, cfg_path, shared_path: has_shared.then_some(shared_path) })
     }
